@@ -12,6 +12,9 @@ a = ap.parse_args()
 def sh(c, **k): return subprocess.run(c, shell=True, text=True, stdout=subprocess.PIPE, stderr=subprocess.STDOUT, **k)
 if sh("git -C /repo diff --quiet").returncode != 0:
     print("ERROR /repo has uncommitted changes"); sys.exit(2)
+import shutil, tempfile
+evidence_backup = tempfile.mkdtemp(prefix='verif_evid_')
+shutil.copytree('/verif/evidence', evidence_backup + '/e')
 try:
     if a.patch:
         r = sh("git -C /repo apply %s" % os.path.abspath(a.patch))
@@ -32,4 +35,6 @@ try:
             if r.returncode not in (0, 1): print(r.stdout[-1500:])
 finally:
     sh("git -C /repo checkout -- .")
+    # evidence files must describe runs on the unchanged tree only
+    shutil.rmtree("/verif/evidence", ignore_errors=True); shutil.copytree(evidence_backup + "/e", "/verif/evidence"); shutil.rmtree(evidence_backup, ignore_errors=True)
     assert sh("git -C /repo diff --quiet").returncode == 0
